@@ -317,11 +317,24 @@ fn process_tcp_packet(
         ObservableHttpPackage { http_request: None, http_response: None };
 
     let flow_key: FlowKey = (src_ip, dst_ip, src_port, dst_port);
+    let reversed_key: FlowKey = (dst_ip, src_ip, dst_port, src_port);
+
+    // A SYN with another initial sequence number opens a new connection on this 4-tuple (port
+    // reuse): what is still kept for the earlier one does not apply to it
+    let flags = tcp.get_flags();
+    if flags & pnet::packet::tcp::TcpFlags::SYN != 0
+        && flags & pnet::packet::tcp::TcpFlags::ACK == 0
+        && http_flows
+            .get(&flow_key)
+            .is_some_and(|flow| flow.client_isn != tcp.get_sequence())
+    {
+        http_flows.remove(&flow_key);
+    }
+
     let (tcp_flow, is_client) = {
         if let Some(flow) = http_flows.get_mut(&flow_key) {
             (Some(flow), true)
         } else {
-            let reversed_key: FlowKey = (dst_ip, src_ip, dst_port, src_port);
             if let Some(flow) = http_flows.get_mut(&reversed_key) {
                 (Some(flow), false)
             } else {
@@ -397,10 +410,13 @@ fn process_tcp_packet(
                 }
             }
 
+            // The flow is stored under the client's key, whichever side this packet comes from
+            let stored_key = if is_client { &flow_key } else { &reversed_key };
+
             // Remove from http_flows if both request and response are parsed
             if flow.client_http_parsed && flow.server_http_parsed {
                 debug!("Both HTTP request and response parsed, removing from http_flows early");
-                http_flows.remove(&flow_key);
+                http_flows.remove(stored_key);
                 return Ok(observable_http_package);
             }
 
@@ -409,7 +425,7 @@ fn process_tcp_packet(
             // peer's message, and the rest of the sender's, can still follow it.
             if tcp.get_flags() & pnet::packet::tcp::TcpFlags::RST != 0 {
                 debug!("Connection reset");
-                http_flows.remove(&flow_key);
+                http_flows.remove(stored_key);
             }
         }
     } else if tcp.get_flags() & pnet::packet::tcp::TcpFlags::SYN != 0 {
